@@ -386,8 +386,9 @@ AMBIENT_SOURCES = {
     "pid": "os.getpid() / os.getppid() return constants during the constructor",
     "thread": "every constructor runs in a fresh thread with the same name (CPython re-uses the thread ident; whether "
               "it did is recorded); threading.get_native_id() returns a constant during the constructor",
-    "id": "sequential lifetimes: the previous instance is dropped and collected before the next constructor runs, so "
-          "that the allocator hands out the same address / id() (whether it did is recorded)",
+    "id": "builtins.id() and builtins.hash() return constants for QMI_Context instances during the constructor; in "
+          "addition sequential lifetimes: the previous instance is dropped and collected before the next constructor "
+          "runs, so that the allocator may hand out the same address (whether it did is recorded)",
     "order": "identical construction sequence for every instance (same harness calls in the same order between the "
              "equalisation and the constructor); PYTHONHASHSEED=0 (set by ./check) makes hash() of equal strings equal",
 }
@@ -458,6 +459,12 @@ class _Ambient:
             self._patch(os, "getppid", lambda: 4241)
         if "thread" in src and not self.full:
             self._patch(_threading, "get_native_id", lambda: 424242)
+        if "id" in src:
+            import builtins
+            from qmi.core.context import QMI_Context
+            real_id, real_hash = builtins.id, builtins.hash
+            self._patch(builtins, "id", lambda o: 0x7F0000001000 if isinstance(o, QMI_Context) else real_id(o))
+            self._patch(builtins, "hash", lambda o: 0x7F0000001 if isinstance(o, QMI_Context) else real_hash(o))
         return self
 
     def __exit__(self, *exc):
@@ -533,11 +540,15 @@ def run_equalised(n, sources, k, full=False, name="client"):
                     "nbtoks": [None if p.rpc_nonblocking._lock_token is None else tuple(p.rpc_nonblocking._lock_token)
                                for p in px] + [None] * (n - len(px)),
                     "ran": len(w.obj.log) - observe.log_before, "gen": []})
+    if seq:      # warm-up: the slot a dropped context leaves behind is what the allocator hands out next
+        warm = construct_equalised(name, sources, k, full)[0]
+        del warm
+        gc.collect()
     for i in range(1, n + 1):
         real, info = construct_equalised(name, sources, k, full)
         tries = 0
-        while seq and infos and info["id"] != infos[0]["id"] and tries < 8:
-            # the allocator did not hand out the first instance's address: drop this one unused and try again
+        while seq and infos and info["id"] != infos[-1]["id"] and tries < 8:
+            # the allocator did not hand out the previous instance's address: drop this one unused and try again
             tries += 1
             del real
             gc.collect()
@@ -572,7 +583,7 @@ def run_equalised(n, sources, k, full=False, name="client"):
     res = {"obs": obs, "died": None, "log": list(w.obj.log), "generated": list(hub.generated), "owner": w.owner(),
            "crashes": [], "rejected": []}
     achieved = {"thread_idents_equal": len({x["ident"] for x in infos}) == 1 if "thread" in sources else None,
-                "ids_equal": len({x["id"] for x in infos}) == 1 if seq else None}
+                "ids_equal": len({x["id"] for x in infos}) < len(infos) if seq else None}
     return insts, proxies, ops, res, achieved
 
 
@@ -1251,8 +1262,11 @@ def run(ck):
         "QMI_RpcProxy.lock/unlock/force_unlock/is_locked and QMI_Context.make_unique_token, tied to /repo by this run",
         "python harness c04.py: stub context for the un-started _RpcThread, synchronous loop-back context for proxies, "
         "canonicalisation of tokens to numbers (only == is used by the code) and of replies",
-        "distinct QMI_Context instances have distinct instance identities (cid); in the repaired code a random "
-        "64-bit nonce per instance",
+        "hypothesis nonces_ok of the distinctness theorems (two distinct same-named QMI_Context instances never carry "
+        "the same nonce) is NOT proved: the nonce is an input drawn by the real constructor from the operating system's "
+        "entropy (os.urandom, 64 bits); the tie checks it on the real constructor for pairs and triples of same-named "
+        "contexts built under an identical ambient state (PRNG seed/state, clocks, pid, thread, id(), construction "
+        "order) — OS entropy itself is never equalised, and a genuine 2^-64 coincidence or a broken OS source is out of reach",
         "the worker handles one request at a time (C03); pickling of tokens over TCP preserves == (C02/C06)",
     ]
     ck.assumptions = [
@@ -1352,7 +1366,7 @@ def run(ck):
         "equalised_sources": AMBIENT_SOURCES, "never_equalised": NOT_EQUALISED,
         "scenarios": achieved_all["scenarios"],
         "scenarios_where_thread_idents_were_equal": achieved_all["thread_idents_equal"],
-        "scenarios_where_id()_was_equal": achieved_all["ids_equal"],
+        "scenarios_where_two_instances_had_the_same_id()": achieved_all["ids_equal"],
         "seconds": round(time.time() - t_e, 2)}
 
     # ---- B. proxy histories over the loop-back context -------------------------------------------
